@@ -417,4 +417,24 @@ def c03_6(c: Ctx) -> None:
     check_precreated_pending(c)
 
 
+
+@ob('C03.7', 'ESC', 'every handler task of the event has finished when _execute_handlers returns (also after a sibling failed or timed out), so the marking step sees terminal results '
+    '(same construct as C01.4 / C11.1)')
+def c03_7(c: Ctx) -> None:
+    from .c01 import check_handler_site, exec_handler_sites
+
+    u, sites = exec_handler_sites(c)
+    g = c.cfg(u)
+    c.floor(len(sites), 1, 'execute_handler call sites')
+    for call in sites:
+        check_handler_site(c, u, g, call)
+
+
+@ob('C03.8', 'DOM', 'every accepted event dispatched from a handler is registered as its child (same obligation as C09.9): an unregistered child lets its parent complete early')
+def c03_8(c: Ctx) -> None:
+    from .c09 import check_child_registration_guards
+
+    check_child_registration_guards(c)
+
+
 OBLIGATIONS = ob.obs
